@@ -395,21 +395,25 @@ theorem send_params_active (v : Version) (hv : v.family ≠ .v1v2) (hh : v.famil
     simp [readHashmapE, CellR.readBit, bind, Outcome.bind, pure]
 
 /-- The same for ANY contents of the other fields of an active wallet's data: any 32-bit sub-wallet / wallet-id field
-(80-bit id for v5 beta), any 256 key bits, either value of v5r1's signature-allowed bit, an empty plugin / extension
-dictionary; for v3 also any trailing bits and references (`DataV3` reads three fields and ignores the rest). The seqno
-read is the stored one; v5 beta stores 33 bits and the code truncates with `uint32(…)`. (Data cells with a NON-empty
-plugin / extension dictionary are covered by the correspondence runs only: the generator attaches well-formed and
-malformed dictionaries.) -/
+(80-bit id for v5 beta), any 256 key bits, either value of v5r1's signature-allowed bit, and ANY plugin / extension
+dictionary the version's dictionary decoder accepts (`tail`, `refs`: the bit `0`, or `1` with a reference to a
+well-formed dictionary — the hypothesis is exactly that `HashmapE` decoding succeeds on what follows the key); for v3
+any trailing bits and references at all (`DataV3` reads three fields and ignores the rest). The seqno read is the stored
+one; v5 beta stores 33 bits and the code truncates with `uint32(…)`. When the dictionary does not decode, Go returns
+the decoding error and nothing is sent (compared with the model on malformed dictionaries by the correspondence runs). -/
 theorem send_params_active_any_fields (s : Nat) (mid key tail : List Bool) (refs : List Cell) (b : Bool)
     (hkey : key.length = 256) :
     (∀ v, v.family = .v3 → s < 2 ^ 32 → mid.length = 32 →
       nextMessageParams v (.active (.ordinary (natToBits 32 s ++ mid ++ key ++ tail) refs)) = .ok { seqno := s, init := false })
     ∧ (∀ v, v.family = .v4 → s < 2 ^ 32 → mid.length = 32 →
-      nextMessageParams v (.active (.ordinary (natToBits 32 s ++ mid ++ key ++ [false]) [])) = .ok { seqno := s, init := false })
+      (∃ x, readHashmapE (fun r => Outcome.ok r.remaining) 264 { bits := tail, refs := refs } = .ok x) →
+      nextMessageParams v (.active (.ordinary (natToBits 32 s ++ mid ++ key ++ tail) refs)) = .ok { seqno := s, init := false })
     ∧ (∀ v, v.family = .v5r1 → s < 2 ^ 32 → mid.length = 32 →
-      nextMessageParams v (.active (.ordinary ([b] ++ natToBits 32 s ++ mid ++ key ++ [false]) [])) = .ok { seqno := s, init := false })
+      (∃ x, readHashmapE (fun r => (r.readUint 1).bind fun x => Outcome.ok x.1) 256 { bits := tail, refs := refs } = .ok x) →
+      nextMessageParams v (.active (.ordinary ([b] ++ natToBits 32 s ++ mid ++ key ++ tail) refs)) = .ok { seqno := s, init := false })
     ∧ (∀ v, v.family = .v5beta → s < 2 ^ 33 → mid.length = 80 →
-      nextMessageParams v (.active (.ordinary (natToBits 33 s ++ mid ++ key ++ [false]) [])) =
+      (∃ x, readHashmapE (fun r => (r.readUint 8).bind fun x => Outcome.ok x.1) 256 { bits := tail, refs := refs } = .ok x) →
+      nextMessageParams v (.active (.ordinary (natToBits 33 s ++ mid ++ key ++ tail) refs)) =
         .ok { seqno := s % 4294967296, init := false }) := by
   have rd : ∀ (n : Nat) (x : Nat) (rest : List Bool) (refs : List Cell), x < 2 ^ n →
       CellR.readUint { bits := natToBits n x ++ rest, refs := refs } n = .ok (x, { bits := rest, refs := refs }) := by
@@ -431,29 +435,35 @@ theorem send_params_active_any_fields (s : Nat) (mid key tail : List Bool) (refs
     rw [if_neg (by decide), rd 32 s _ _ hs]; simp only []
     rw [ru mid _ _ 32 hm]; simp only []
     rw [rb key _ _ 256 hkey]
-  · intro v hf hs hm
+  · intro v hf hs hm ⟨x, hx⟩
     unfold nextMessageParams decodeDataSeqno
     simp only [hf, Cell.ordinary, Cell.ty, tyLibrary, CellR.ofCell, Cell.bits, Cell.refs, List.append_assoc, bind, Outcome.bind, pure]
     rw [if_neg (by decide), rd 32 s _ _ hs]; simp only []
     rw [ru mid _ _ 32 hm]; simp only []
-    rw [rb key _ _ 256 hkey]
-    simp [readHashmapE, CellR.readBit, bind, Outcome.bind, pure]
-  · intro v hf hs hm
+    rw [rb key _ _ 256 hkey]; simp only []
+    rw [hx]
+  · intro v hf hs hm ⟨x, hx⟩
     unfold nextMessageParams decodeDataSeqno
     simp only [hf, Cell.ordinary, Cell.ty, tyLibrary, CellR.ofCell, Cell.bits, Cell.refs, List.append_assoc, bind, Outcome.bind, pure]
     rw [if_neg (by decide)]
     simp only [List.cons_append, List.nil_append, CellR.readBit]
     rw [rd 32 s _ _ hs]; simp only []
     rw [ru mid _ _ 32 hm]; simp only []
-    rw [rb key _ _ 256 hkey]
-    simp [readHashmapE, CellR.readBit, bind, Outcome.bind, pure]
-  · intro v hf hs hm
+    rw [rb key _ _ 256 hkey]; simp only []
+    simp only [Outcome.bind] at hx
+    rw [hx]
+  · intro v hf hs hm ⟨x, hx⟩
     unfold nextMessageParams decodeDataSeqno
     simp only [hf, Cell.ordinary, Cell.ty, tyLibrary, CellR.ofCell, Cell.bits, Cell.refs, List.append_assoc, bind, Outcome.bind, pure]
     rw [if_neg (by decide), rd 33 s _ _ hs]; simp only []
     rw [rb mid _ _ 80 hm]; simp only []
-    rw [rb key _ _ 256 hkey]
-    simp [readHashmapE, CellR.readBit, bind, Outcome.bind, pure]
+    rw [rb key _ _ 256 hkey]; simp only []
+    simp only [Outcome.bind] at hx
+    rw [hx]
+
+/-- non-vacuity of the dictionary premise of `send_params_active_any_fields`: the empty dictionary (bit 0) decodes -/
+example : ∃ x, readHashmapE (fun r => Outcome.ok r.remaining) 264 { bits := [false], refs := [] } = .ok x :=
+  ⟨([], { bits := [], refs := [] }), by simp [readHashmapE, CellR.readBit, bind, Outcome.bind, pure]⟩
 
 /-- Non-existent or uninitialised account: seqno 0 and the wallet's own state-init attached (every version that can
 send). A frozen account is treated the same way by v3/v4/v5; the highload wallet attaches the state-init exactly for
